@@ -95,6 +95,25 @@ func verifySubsetBLS(k cfg, shares map[uint16][]byte, c *harness.C, seed int64) 
 			return "subset-does-not-reconstruct", fmt.Errorf("subset %v: %v", sub, err)
 		}
 		c.Outcome(fmt.Sprintf("%v|%v", k, sub))
+		// the same set of points listed in another order (shares permuted consistently)
+		if len(sub) >= 2 {
+			for _, perm := range [][]int{reverseIdx(len(sub)), rotateIdx(len(sub))} {
+				var s2 []uint16
+				var g2 [][]byte
+				for _, i := range perm {
+					s2 = append(s2, sub[i])
+					g2 = append(g2, sigs[i])
+				}
+				agg, err := v.AggregateSignatures(g2, s2)
+				if err == nil {
+					err = v.Verify(d[:], agg)
+				}
+				c.Add("evaluations", 1)
+				if err != nil {
+					return "subset-does-not-reconstruct:point-order", fmt.Errorf("points listed as %v: %v", s2, err)
+				}
+			}
+		}
 	}
 	// fewer than t shares must not reconstruct
 	if k.t > 1 {
@@ -176,8 +195,39 @@ func verifySubsetPS(k cfg, shares map[uint16][]byte, c *harness.C) (cl string, e
 			return "subset-does-not-reconstruct", fmt.Errorf("subset %v: %v", sub, err)
 		}
 		c.Outcome(fmt.Sprintf("%v|%v", k, sub))
+		if len(sub) >= 2 {
+			for _, perm := range [][]int{reverseIdx(len(sub)), rotateIdx(len(sub))} {
+				var s2 []uint16
+				var w2 []ps.SignatureWitness
+				for _, i := range perm {
+					s2 = append(s2, sub[i])
+					w2 = append(w2, ws[i])
+				}
+				pok2 := pr.ProveKnowledgeOfSignature(&secret, s2, w2)
+				c.Add("evaluations", 1)
+				if err := v.Verify(pok2.Bytes()); err != nil {
+					return "subset-does-not-reconstruct:point-order", fmt.Errorf("points listed as %v: %v", s2, err)
+				}
+			}
+		}
 	}
 	return "", nil
+}
+
+func reverseIdx(n int) []int {
+	out := make([]int, n)
+	for i := range out {
+		out[i] = n - 1 - i
+	}
+	return out
+}
+
+func rotateIdx(n int) []int {
+	out := make([]int, n)
+	for i := range out {
+		out[i] = (i + 1) % n
+	}
+	return out
 }
 
 func algebraCase(k cfg, reps int) harness.Case {
@@ -249,6 +299,10 @@ func gen(c *harness.C) []harness.Case {
 				if t < n {
 					cases = append(cases, offCase(cfg{"ps", n, t}))
 				}
+			} else if n <= maxPS+3 && t < n && (t == 2 || t == n/2) {
+				// every position of an off-polynomial key also for sizes where the first and the last
+				// t-subset do not cover all parties (n >= 2t+1)
+				cases = append(cases, offCase(cfg{"ps", n, t}))
 			}
 		}
 	}
